@@ -67,180 +67,238 @@ func cmIsLocal(o types.Object) bool {
 // R1 start only when absent
 
 func c07R1(c *kit.Ctx, m *cmModel, r *kit.Rule) {
-	for _, sto := range m.stores {
-		f := sto.f
-		info := f.Info()
-		c.Analysed(f)
-		o := r.Ob(f, sto.stmt, "client-state map store", "reached only after a lookup of the same key answered 'absent' in the same loop iteration")
-		keyObj := kit.ObjOf(info, sto.key)
-		if _, isID := ast.Unparen(sto.key).(*ast.Ident); !isID || !cmIsLocal(keyObj) {
-			o.Undecided("store key `%s` is not a local variable", f.Str(sto.key))
+	// lookups of the client-state map anywhere in the package (helpers are inlined)
+	type lookup struct {
+		id  string
+		key ast.Expr
+		ok  types.Object
+		val types.Object
+	}
+	lookups := map[ast.Node]*lookup{}
+	okVars := map[types.Object]string{}
+	valVars := map[types.Object]string{}
+	for _, pf := range c.P.Funcs("client") {
+		if pf.Body == nil {
 			continue
 		}
-		atoms := map[string]types.Object{} // atom id -> key variable
-		atomPos := map[string][]ast.Node{}
-		okVars := map[types.Object]string{}
-		valVars := map[types.Object]string{}
-		stmtAtom := map[ast.Node]string{}
-		multi := ""
-		cmOwn(f.Body, func(n ast.Node) bool {
+		pinfo := pf.Info()
+		cmOwn(pf.Body, func(n ast.Node) bool {
 			as, ok := n.(*ast.AssignStmt)
 			if !ok || len(as.Rhs) != 1 || len(as.Lhs) > 2 {
 				return true
 			}
 			ix, ok := ast.Unparen(as.Rhs[0]).(*ast.IndexExpr)
-			if !ok || !m.isMapExpr(info, ix.X) {
+			if !ok || !m.isMapExpr(pinfo, ix.X) {
 				return true
 			}
-			k := kit.ObjOf(info, ix.Index)
-			if k == nil {
-				return true
-			}
-			id := fmt.Sprintf("lk%d", as.Pos())
-			atoms[id] = k
-			atomPos[id] = []ast.Node{as}
-			stmtAtom[as] = id
-			reg := func(e ast.Expr, into map[types.Object]string) {
-				if v := kit.ObjOf(info, e); v != nil {
-					if cmAssignCount(f, v) != 1 {
-						multi = v.Name()
-						return
-					}
-					into[v] = id
+			lk := &lookup{id: fmt.Sprintf("lk%d", as.Pos()), key: ix.Index}
+			reg := func(e ast.Expr) types.Object {
+				if v := kit.ObjOf(pinfo, e); v != nil && cmAssignCount(pf.Root(), v) == 1 {
+					return v
 				}
+				return nil
 			}
 			if len(as.Lhs) == 2 {
-				reg(as.Lhs[0], valVars)
-				reg(as.Lhs[1], okVars)
+				lk.val, lk.ok = reg(as.Lhs[0]), reg(as.Lhs[1])
 			} else {
-				reg(as.Lhs[0], valVars)
+				lk.val = reg(as.Lhs[0])
 			}
+			if lk.ok != nil {
+				okVars[lk.ok] = lk.id
+			}
+			if lk.val != nil {
+				valVars[lk.val] = lk.id
+			}
+			lookups[as] = lk
 			return true
 		})
-		st := &kit.Std{F: f}
-		st.Eval.Atom = func(e ast.Expr) (string, bool, bool) {
-			e = ast.Unparen(e)
-			if id, ok := e.(*ast.Ident); ok {
-				if a, ok := okVars[kit.ObjOf(info, id)]; ok {
-					return a, false, true
+	}
+	for _, sto := range m.stores {
+		f := sto.f
+		info := f.Info()
+		c.Analysed(f)
+		o := r.Ob(f, sto.stmt, "client-state map store", "reached only after a lookup of the same key answered 'absent' in the same loop iteration")
+		keyObj0 := kit.ObjOf(info, sto.key)
+		if _, isID := ast.Unparen(sto.key).(*ast.Ident); !isID || !cmIsLocal(keyObj0) {
+			o.Undecided("store key `%s` is not a local variable", f.Str(sto.key))
+			continue
+		}
+		// the guard lives where the key is computed: in f, or in the callers that hand the key in
+		roots := []*kit.Func{f}
+		if c07ParamOf(f, keyObj0) != nil {
+			roots = nil
+			for _, cf := range c.P.Funcs("client") {
+				if cf.Body == nil {
+					continue
 				}
-			}
-			if x, y, op, ok := kit.CmpAtom(e); ok && (op == token.EQL || op == token.NEQ) {
-				if kit.IsNilIdent(info, x) {
-					x, y = y, x
-				}
-				if kit.IsNilIdent(info, y) {
-					if vo := kit.ObjOf(info, x); vo != nil {
-						if a, ok := valVars[vo]; ok {
-							return a, op == token.EQL, true
-						}
-					}
-					if ix, ok := ast.Unparen(x).(*ast.IndexExpr); ok && m.isMapExpr(info, ix.X) {
-						if k := kit.ObjOf(info, ix.Index); k != nil {
-							id := "dx" + kit.VarID(k)
-							atoms[id] = k
-							atomPos[id] = append(atomPos[id], e)
-							return id, op == token.EQL, true
-						}
+				for _, call := range cf.AllCalls(false) {
+					if cf.CalleeFunc(call) == f {
+						roots = cmAppendFunc(roots, cf)
 					}
 				}
 			}
-			return "", false, false
-		}
-		inval := func(s kit.S, pred func(id string, k types.Object) bool) kit.S {
-			for id, k := range atoms {
-				if pred(id, k) {
-					s = s.Del("a:" + id)
-				}
+			if len(roots) == 0 {
+				o.Undecided("the store key is a parameter of %s, which has no static caller in the package", f.Name)
+				continue
 			}
-			return s
 		}
-		bad := ""
+		bad, undec := "", ""
 		reached := false
-		st.OnNode = func(n ast.Node, s kit.S) []kit.S {
-			if id, ok := stmtAtom[n]; ok {
-				s = s.Del("a:" + id) // a fresh answer
-			}
-			for _, ao := range cmAssigned(info, n) {
-				s = inval(s, func(_ string, k types.Object) bool { return k == ao })
-			}
-			if n == ast.Node(sto.stmt) {
-				reached = true
-				good, present := false, false
-				for id, k := range atoms {
-					if k != keyObj {
-						continue
-					}
-					switch s.Get("a:" + id) {
-					case "F":
-						good = true
-					case "T":
-						present = true
+		for _, root := range roots {
+			atoms := map[string]types.Object{} // atom id -> resolved key variable
+			atomPos := map[string][]ast.Node{}
+			st := &kit.Std{F: root}
+			st.ShouldInline = func(*kit.Func, *ast.CallExpr) bool { return true }
+			st.Eval.Atom = func(e ast.Expr) (string, bool, bool) {
+				e = ast.Unparen(e)
+				if id, ok := e.(*ast.Ident); ok {
+					if a, ok := okVars[kit.ObjOf(info, id)]; ok {
+						return a, false, true
 					}
 				}
-				if !good && bad == "" {
-					if present {
+				if x, y, op, ok := kit.CmpAtom(e); ok && (op == token.EQL || op == token.NEQ) {
+					if kit.IsNilIdent(info, x) {
+						x, y = y, x
+					}
+					if kit.IsNilIdent(info, y) {
+						if vo := kit.ObjOf(info, x); vo != nil {
+							if a, ok := valVars[vo]; ok {
+								return a, op == token.EQL, true
+							}
+						}
+						if ix, ok := ast.Unparen(x).(*ast.IndexExpr); ok && m.isMapExpr(info, ix.X) {
+							if k := st.ObjOf(ix.Index); k != nil {
+								id := "dx" + kit.VarID(k)
+								atoms[id] = k
+								atomPos[id] = append(atomPos[id], e)
+								return id, op == token.EQL, true
+							}
+						}
+					}
+				}
+				return "", false, false
+			}
+			inval := func(s kit.S, pred func(id string, k types.Object) bool) kit.S {
+				for id, k := range atoms {
+					if pred(id, k) {
+						s = s.Del("a:" + id)
+					}
+				}
+				return s
+			}
+			st.OnCall = func(call *ast.CallExpr, n ast.Node, s kit.S) []kit.S {
+				// a module function deciding a condition: if it is not understood the path is not judged
+				if _, inCond := n.(ast.Expr); inCond && !cmIsLibraryCall(info, call) {
+					return []kit.S{s.Set("opq", "1")}
+				}
+				return nil
+			}
+			st.OnNode = func(n ast.Node, s kit.S) []kit.S {
+				for _, ao := range cmAssigned(info, n) {
+					s = inval(s, func(_ string, k types.Object) bool { return k == ao })
+				}
+				if n == ast.Node(sto.stmt) {
+					reached = true
+					keyObj := st.ObjOf(sto.key)
+					good, present := false, false
+					for id, k := range atoms {
+						if k != keyObj || keyObj == nil {
+							continue
+						}
+						switch s.Get("a:" + id) {
+						case "F":
+							good = true
+						case "T":
+							present = true
+						}
+					}
+					switch {
+					case good:
+					case keyObj == nil:
+						undec = "the store key cannot be traced to a variable of " + root.Name
+					case s.Get("opq") == "1":
+						undec = "the path to the store passes a condition decided by a function of the module the checker could not evaluate"
+					case bad != "":
+					case present:
 						bad = "the store is reached although the lookup of `" + keyObj.Name() + "` answered 'present': a second client would be started for a placement that already has one"
-					} else {
+					default:
 						bad = "the store is reached on a path on which no lookup of `" + keyObj.Name() + "` in this iteration answered 'absent'"
 					}
 				}
-			}
-			mod := false
-			if as, ok := n.(*ast.AssignStmt); ok {
-				for _, l := range as.Lhs {
-					if ix, ok := ast.Unparen(l).(*ast.IndexExpr); ok && m.isMapExpr(info, ix.X) {
+				mod := false
+				if as, ok := n.(*ast.AssignStmt); ok {
+					for _, l := range as.Lhs {
+						if ix, ok := ast.Unparen(l).(*ast.IndexExpr); ok && m.isMapExpr(info, ix.X) {
+							mod = true
+						}
+					}
+				}
+				cmOwn(n, func(x ast.Node) bool {
+					if call, ok := x.(*ast.CallExpr); ok && (cmIsBuiltin(info, call, "delete") || cmIsBuiltin(info, call, "clear")) && len(call.Args) > 0 && m.isMapExpr(info, call.Args[0]) {
 						mod = true
 					}
-				}
-			}
-			cmOwn(n, func(x ast.Node) bool {
-				if call, ok := x.(*ast.CallExpr); ok && (cmIsBuiltin(info, call, "delete") || cmIsBuiltin(info, call, "clear")) && len(call.Args) > 0 && m.isMapExpr(info, call.Args[0]) {
-					mod = true
-				}
-				return true
-			})
-			if mod {
-				s = inval(s, func(string, types.Object) bool { return true })
-			}
-			return []kit.S{s}
-		}
-		st.OnBranch = func(br kit.Branch, s kit.S) (t, fl []kit.S, handled bool) {
-			if br.Kind != kit.BrRange {
-				return nil, nil, false
-			}
-			ko, vo := types.Object(nil), types.Object(nil)
-			if br.Range.Key != nil {
-				ko = kit.ObjOf(info, br.Range.Key)
-			}
-			if br.Range.Value != nil {
-				vo = kit.ObjOf(info, br.Range.Value)
-			}
-			s2 := inval(s, func(id string, k types.Object) bool {
-				if (ko != nil && k == ko) || (vo != nil && k == vo) {
 					return true
+				})
+				if mod {
+					s = inval(s, func(string, types.Object) bool { return true })
 				}
-				for _, p := range atomPos[id] {
-					if cmWithin(p, br.Range.Body) {
+				if lk, ok := lookups[n]; ok {
+					// a fresh answer; fork it here so that a helper can return it
+					k := st.ObjOf(lk.key)
+					if k == nil {
+						return []kit.S{s.Del("a:" + lk.id)}
+					}
+					atoms[lk.id] = k
+					atomPos[lk.id] = []ast.Node{n}
+					t, fl := s.Set("a:"+lk.id, "T"), s.Set("a:"+lk.id, "F")
+					if lk.ok != nil {
+						t, fl = t.Set("v:"+kit.VarID(lk.ok), "true"), fl.Set("v:"+kit.VarID(lk.ok), "false")
+					}
+					return []kit.S{t, fl}
+				}
+				return []kit.S{s}
+			}
+			st.OnBranch = func(br kit.Branch, s kit.S) (t, fl []kit.S, handled bool) {
+				if br.Kind != kit.BrRange {
+					return nil, nil, false
+				}
+				ko, vo := types.Object(nil), types.Object(nil)
+				if br.Range.Key != nil {
+					ko = kit.ObjOf(info, br.Range.Key)
+				}
+				if br.Range.Value != nil {
+					vo = kit.ObjOf(info, br.Range.Value)
+				}
+				s2 := inval(s, func(id string, k types.Object) bool {
+					if (ko != nil && k == ko) || (vo != nil && k == vo) {
 						return true
 					}
+					for _, p := range atomPos[id] {
+						if cmWithin(p, br.Range.Body) {
+							return true
+						}
+					}
+					return false
+				})
+				if br.Range == sto.loop || cmWithin(sto.stmt, br.Range.Body) {
+					s2 = s2.Del("opq")
 				}
-				return false
-			})
-			return []kit.S{s2}, []kit.S{s}, true
+				return []kit.S{s2}, []kit.S{s}, true
+			}
+			res := c.P.Graph(root).Run(kit.NewS(), st.Client())
+			if res.Overflow {
+				c.Fatalf("R1: state overflow in %s", root.Name)
+			}
 		}
-		res := c.P.Graph(f).Run(kit.NewS(), st.Client())
 		switch {
-		case res.Overflow:
-			c.Fatalf("R1: state overflow in %s", f.Name)
-		case multi != "":
-			o.Undecided("lookup result variable `%s` is assigned more than once", multi)
-		case !reached:
-			o.Undecided("the store is not reachable in the CFG")
 		case bad != "":
 			o.Violation("%s", bad)
+		case undec != "":
+			o.Undecided("%s", undec)
+		case !reached:
+			o.Undecided("the store is not reachable in the CFG")
 		default:
-			o.OK("`%s` dominated by the absent edge of a lookup of `%s`", f.Str(sto.stmt), keyObj.Name())
+			o.OK("`%s` dominated by the absent edge of a lookup of its key", f.Str(sto.stmt))
 		}
 	}
 }
@@ -249,12 +307,12 @@ func c07R1(c *kit.Ctx, m *cmModel, r *kit.Rule) {
 // R2 construction failure is not used
 
 // c07HarmfulUses lists the occurrences of obj inside n (descending into
-// function literals: a capture is a use) that dereference, capture, store or
-// pass on the value.  Comparisons with nil, fmt/log arguments, blank
-// assignments and returning the value are harmless.
-func c07HarmfulUses(f *kit.Func, n ast.Node, obj types.Object) []*ast.Ident {
+// function literals: a capture is a use) that dereference, capture or store
+// the value (out), and those that hand it to another function (passed).
+// Comparisons with nil, fmt/log arguments, blank assignments and returning the
+// value are harmless.
+func c07HarmfulUses(f *kit.Func, n ast.Node, obj types.Object) (out, passed []*ast.Ident) {
 	info := f.Info()
-	var out []*ast.Ident
 	ast.Inspect(n, func(x ast.Node) bool {
 		id, ok := x.(*ast.Ident)
 		if !ok || info.Uses[id] != obj {
@@ -278,6 +336,9 @@ func c07HarmfulUses(f *kit.Func, n ast.Node, obj types.Object) []*ast.Ident {
 				if fn, ok := kit.Callee(info, p).(*types.Func); ok && fn.Pkg() != nil && (fn.Pkg().Path() == "fmt" || fn.Pkg().Path() == "log") {
 					return true
 				}
+				// handed to another function: whether that function dereferences it is not decided here
+				passed = append(passed, id)
+				return true
 			}
 		case *ast.AssignStmt:
 			for i, rh := range p.Rhs {
@@ -298,7 +359,7 @@ func c07HarmfulUses(f *kit.Func, n ast.Node, obj types.Object) []*ast.Ident {
 		out = append(out, id)
 		return true
 	})
-	return out
+	return out, passed
 }
 
 func c07R2(c *kit.Ctx, m *cmModel, r *kit.Rule) {
@@ -356,7 +417,10 @@ func c07R2(c *kit.Ctx, m *cmModel, r *kit.Rule) {
 			}
 			st.OnCall = func(cl *ast.CallExpr, n ast.Node, s kit.S) []kit.S {
 				if cl == site {
-					return []kit.S{s.Set("cs", "pending").Del("a:csnil")}
+					return []kit.S{s.Set("cs", "pending").Del("a:csnil").Del("opq")}
+				}
+				if _, inCond := n.(ast.Expr); inCond && !cmIsLibraryCall(info, cl) {
+					return []kit.S{s.Set("opq", "1")}
 				}
 				return nil
 			}
@@ -383,9 +447,20 @@ func c07R2(c *kit.Ctx, m *cmModel, r *kit.Rule) {
 				}
 				return ""
 			}
-			bad := ""
-			var badAt ast.Node
+			bad, undec := "", ""
+			errObj := kit.ObjOf(info, as.Lhs[1])
+			errOpaque := false // the error is inspected by a condition the checker does not understand
 			scan := func(n ast.Node, s kit.S) {
+				if e, isExpr := n.(ast.Expr); isExpr && errObj != nil {
+					if _, _, isChk := kit.ErrCheck(info, e); !isChk {
+						ast.Inspect(e, func(x ast.Node) bool {
+							if id, ok := x.(*ast.Ident); ok && info.Uses[id] == errObj {
+								errOpaque = true
+							}
+							return true
+						})
+					}
+				}
 				why := unsafe(s)
 				if why == "" || bad != "" {
 					return
@@ -393,9 +468,14 @@ func c07R2(c *kit.Ctx, m *cmModel, r *kit.Rule) {
 				if n == ast.Node(as) {
 					return
 				}
-				if us := c07HarmfulUses(f, n, csObj); len(us) > 0 {
+				us, passed := c07HarmfulUses(f, n, csObj)
+				switch {
+				case len(us) > 0 && s.Get("opq") == "1":
+					undec = fmt.Sprintf("`%s` is used at %s on a path that passes a condition decided by a function of the module", csObj.Name(), f.At(us[0]))
+				case len(us) > 0:
 					bad = fmt.Sprintf("`%s` is used at %s %s", csObj.Name(), f.At(us[0]), why)
-					badAt = us[0]
+				case len(passed) > 0:
+					undec = fmt.Sprintf("`%s` is handed to another function at %s %s; whether that function uses it is not decided", csObj.Name(), f.At(passed[0]), why)
 				}
 			}
 			st.Fold = func(e ast.Expr, s kit.S) (bool, bool) {
@@ -428,12 +508,15 @@ func c07R2(c *kit.Ctx, m *cmModel, r *kit.Rule) {
 				return []kit.S{s}
 			}
 			res := c.P.Graph(f).Run(kit.NewS(), st.Client())
-			_ = badAt
 			switch {
 			case res.Overflow:
 				c.Fatalf("R2: state overflow in %s", f.Name)
+			case bad != "" && errOpaque:
+				o.Undecided("%s, but the error is also inspected by a condition the checker does not understand", bad)
 			case bad != "":
 				o.Violation("%s: a failed construction (children not listed, node not decodable) would be started, stored and dereferenced", bad)
+			case undec != "":
+				o.Undecided("%s", undec)
 			default:
 				o.OK("every use of `%s` lies on the nil edge of the error", csObj.Name())
 			}
@@ -499,24 +582,63 @@ func c07R2(c *kit.Ctx, m *cmModel, r *kit.Rule) {
 // R3 exit signal pairing
 
 type c07ExitGo struct {
-	stmt *ast.GoStmt
-	gf   *kit.Func
-	bind map[types.Object]types.Object // parameter of gf -> variable passed
+	stmt  *ast.GoStmt
+	in    *kit.Func // function holding the go statement
+	gf    *kit.Func
+	bind  map[types.Object]types.Object // parameter / receiver of gf -> variable passed (in `in`)
+	outer map[types.Object]types.Object // parameter / receiver of `in` -> variable of the function under analysis
+	// set by c07GoFlow: the goroutine calls the run method on the state asked for
+	runsVal bool
+}
+
+func (g *c07ExitGo) resolveObj(o types.Object) types.Object {
+	if b, ok := g.bind[o]; ok {
+		o = b
+	}
+	if b, ok := g.outer[o]; ok {
+		o = b
+	}
+	return o
 }
 
 func (g *c07ExitGo) resolve(info *types.Info, e ast.Expr) types.Object {
 	if _, ok := ast.Unparen(e).(*ast.Ident); !ok {
 		return nil
 	}
-	o := kit.ObjOf(info, e)
-	if b, ok := g.bind[o]; ok {
-		return b
-	}
-	return o
+	return g.resolveObj(kit.ObjOf(info, e))
 }
 
-// c07ExitGoroutines lists the go statements of f whose function runs a client state.
-func c07ExitGoroutines(m *cmModel, f *kit.Func) []*c07ExitGo {
+// cmBindCall maps the parameters and the receiver of cf to the plain variables
+// passed at call (in the caller's terms).
+func cmBindCall(info *types.Info, cf *kit.Func, call *ast.CallExpr) map[types.Object]types.Object {
+	bind := map[types.Object]types.Object{}
+	ps := cf.Params()
+	if len(ps) == len(call.Args) {
+		for i, p := range ps {
+			if _, isID := ast.Unparen(call.Args[i]).(*ast.Ident); isID {
+				if a := kit.ObjOf(info, call.Args[i]); a != nil {
+					bind[p] = a
+				}
+			}
+		}
+	}
+	if cf.Decl != nil && cf.Decl.Recv != nil && len(cf.Decl.Recv.List) > 0 && len(cf.Decl.Recv.List[0].Names) > 0 {
+		if sel, ok := ast.Unparen(call.Fun).(*ast.SelectorExpr); ok {
+			if _, isID := ast.Unparen(sel.X).(*ast.Ident); isID {
+				if ro := cf.Info().Defs[cf.Decl.Recv.List[0].Names[0]]; ro != nil {
+					if a := kit.ObjOf(info, sel.X); a != nil {
+						bind[ro] = a
+					}
+				}
+			}
+		}
+	}
+	return bind
+}
+
+// c07ExitGoroutines lists the go statements of f whose function (literal,
+// closure, function or method) runs a client state.
+func c07ExitGoroutines(m *cmModel, f *kit.Func, outer map[types.Object]types.Object) []*c07ExitGo {
 	info := f.Info()
 	var out []*c07ExitGo
 	cmOwn(f.Body, func(n ast.Node) bool {
@@ -528,29 +650,29 @@ func c07ExitGoroutines(m *cmModel, f *kit.Func) []*c07ExitGo {
 		if gf == nil || gf.Body == nil {
 			return true
 		}
-		g := &c07ExitGo{stmt: gs, gf: gf, bind: map[types.Object]types.Object{}}
-		ps := gf.Params()
-		if len(ps) == len(gs.Call.Args) {
-			for i, p := range ps {
-				if a := kit.ObjOf(info, gs.Call.Args[i]); a != nil {
-					if _, isID := ast.Unparen(gs.Call.Args[i]).(*ast.Ident); isID {
-						g.bind[p] = a
-					}
-				}
-			}
-		}
-		runs := false
-		for _, call := range gf.AllCalls(false) {
-			if _, ok := m.isRunCall(gf, call); ok {
-				runs = true
-			}
-		}
-		if runs {
+		g := &c07ExitGo{stmt: gs, in: f, gf: gf, bind: cmBindCall(info, gf, gs.Call), outer: outer}
+		if m.reachesRun(gf, 0) {
 			out = append(out, g)
 		}
 		return true
 	})
 	return out
+}
+
+// reachesRun: a run method of the client state is called in f or in a function
+// of the package f calls (three levels).
+func (m *cmModel) reachesRun(f *kit.Func, depth int) bool {
+	for _, call := range f.AllCalls(false) {
+		if _, ok := m.isRunCall(f, call); ok {
+			return true
+		}
+		if depth < 3 {
+			if cf := f.CalleeFunc(call); cf != nil && cf.Body != nil && cf.Pkg == f.Pkg && cf != f && m.reachesRun(cf, depth+1) {
+				return true
+			}
+		}
+	}
+	return false
 }
 
 // c07GoFlow checks the body of an exit goroutine: on every path the run of
@@ -560,13 +682,33 @@ func c07ExitGoroutines(m *cmModel, f *kit.Func) []*c07ExitGo {
 func c07GoFlow(c *kit.Ctx, m *cmModel, g *c07ExitGo, valObj, keyObj types.Object) (bad string, path []string, sends []*ast.SendStmt) {
 	gf := g.gf
 	info := gf.Info()
+	var st *kit.Std
 	isSignal := func(snd *ast.SendStmt) bool {
 		ch := m.keyChan(info, snd.Chan)
-		return ch != nil && m.exitCh[ch] && g.resolve(info, snd.Value) == keyObj
+		if ch == nil || !m.exitCh[ch] {
+			return false
+		}
+		if _, isID := ast.Unparen(st.Resolve(snd.Value)).(*ast.Ident); !isID {
+			return false
+		}
+		return g.resolveObj(st.ObjOf(snd.Value)) == keyObj
 	}
-	st := &kit.Std{F: gf}
+	st = &kit.Std{F: gf}
+	st.ShouldInline = func(cf *kit.Func, _ *ast.CallExpr) bool {
+		for _, rm := range m.runM {
+			if rm == cf {
+				return false // the run itself is an event, not a helper
+			}
+		}
+		return true
+	}
+	ranOther := false
 	st.OnCall = func(call *ast.CallExpr, n ast.Node, s kit.S) []kit.S {
-		if rx, ok := m.isRunCall(gf, call); ok && g.resolve(info, rx) == valObj {
+		if rx, ok := m.isRunCall(st.Cur(), call); ok && g.resolveObj(st.ObjOf(rx)) != valObj {
+			ranOther = true
+		}
+		if rx, ok := m.isRunCall(st.Cur(), call); ok && g.resolveObj(st.ObjOf(rx)) == valObj {
+			g.runsVal = true
 			if _, isDefer := n.(*ast.DeferStmt); isDefer {
 				return nil
 			}
@@ -587,11 +729,18 @@ func c07GoFlow(c *kit.Ctx, m *cmModel, g *c07ExitGo, valObj, keyObj types.Object
 				s = s.Set("sig", "1")
 			}
 		case *ast.DeferStmt:
-			if df := gf.CalleeFunc(x.Call); df != nil && df.Lit != nil && df.Body != nil {
+			if df := st.Cur().CalleeFunc(x.Call); df != nil && df.Lit != nil && df.Body != nil && len(df.Params()) == 0 {
 				dst := &kit.Std{F: df}
 				var dsends []*ast.SendStmt
+				isSig := func(snd *ast.SendStmt) bool {
+					ch := m.keyChan(info, snd.Chan)
+					if _, isID := ast.Unparen(st.Resolve(snd.Value)).(*ast.Ident); !isID || ch == nil || !m.exitCh[ch] {
+						return false
+					}
+					return g.resolveObj(st.ObjOf(snd.Value)) == keyObj
+				}
 				dst.OnNode = func(dn ast.Node, ds kit.S) []kit.S {
-					if snd, ok := dn.(*ast.SendStmt); ok && isSignal(snd) {
+					if snd, ok := dn.(*ast.SendStmt); ok && isSig(snd) {
 						dsends = append(dsends, snd)
 						ds = ds.Set("sig", "1")
 					}
@@ -637,6 +786,7 @@ func c07GoFlow(c *kit.Ctx, m *cmModel, g *c07ExitGo, valObj, keyObj types.Object
 	if n == 0 && bad == "" {
 		bad = "the goroutine never returns"
 	}
+	_ = ranOther
 	return bad, path, sends
 }
 
@@ -660,16 +810,14 @@ func c07R3(c *kit.Ctx, m *cmModel, r *kit.Rule) {
 			oVar.Undecided("stored key/value are not local variables")
 			continue
 		}
-		var mine []*c07ExitGo
-		for _, g := range c07ExitGoroutines(m, f) {
-			for _, call := range g.gf.AllCalls(false) {
-				if rx, ok := m.isRunCall(g.gf, call); ok && g.resolve(g.gf.Info(), rx) == valObj {
-					mine = append(mine, g)
-					break
-				}
-			}
-		}
+		mine, handedTo := c07StoreGoroutines(c, m, sto, keyObj, valObj)
 		if len(mine) == 0 {
+			if handedTo != "" {
+				oPair.Undecided("no goroutine of %s runs `%s` directly; the state is handed to `%s`, which the checker could not follow", f.Name, valObj.Name(), handedTo)
+				oSig.Undecided("exit goroutine not found (state handed to `%s`)", handedTo)
+				oVar.Undecided("exit goroutine not found")
+				continue
+			}
 			oPair.Violation("no goroutine started in %s runs the stored client state `%s`", f.Name, valObj.Name())
 			oSig.Violation("no exit goroutine")
 			oVar.OK("n/a")
@@ -682,6 +830,7 @@ func c07R3(c *kit.Ctx, m *cmModel, r *kit.Rule) {
 		}
 		// (a) pairing inside the iteration
 		st := &kit.Std{F: f}
+		st.ShouldInline = func(*kit.Func, *ast.CallExpr) bool { return true }
 		bad := ""
 		var badExit *kit.Exit
 		check := func(s kit.S, where string) {
@@ -816,6 +965,142 @@ func cmPerIterationLoopVars(f *kit.Func) bool {
 // ---------------------------------------------------------------------------
 // R4 single deleter
 
+// c07StoreGoroutines finds the exit goroutines of one insertion: go statements
+// of the storing function, or of a function of the package it hands the state to,
+// whose function calls the run method on the stored state.
+func c07StoreGoroutines(c *kit.Ctx, m *cmModel, sto *cmStore, keyObj, valObj types.Object) (mine []*c07ExitGo, handedTo string) {
+	f := sto.f
+	info := f.Info()
+	cands := c07ExitGoroutines(m, f, nil)
+	cmOwn(f.Body, func(n ast.Node) bool {
+		call, ok := n.(*ast.CallExpr)
+		if !ok {
+			return true
+		}
+		if gs, isGo := c.P.Parent(f.File, call).(*ast.GoStmt); isGo && gs.Call == call {
+			return true
+		}
+		gets := false
+		for _, a := range call.Args {
+			if kit.ObjOf(info, a) == valObj {
+				gets = true
+			}
+		}
+		if sel, ok := ast.Unparen(call.Fun).(*ast.SelectorExpr); ok && kit.ObjOf(info, sel.X) == valObj {
+			if _, isRun := m.isRunCall(f, call); !isRun {
+				gets = true
+			}
+		}
+		if !gets || cmIsLibraryCall(info, call) {
+			return true
+		}
+		hf := f.CalleeFunc(call)
+		if hf == nil || hf.Body == nil || hf.Pkg != f.Pkg {
+			handedTo = f.Str(call.Fun)
+			return true
+		}
+		hs := c07ExitGoroutines(m, hf, cmBindCall(info, hf, call))
+		if len(hs) == 0 && m.reachesRun(hf, 0) {
+			handedTo = f.Str(call.Fun)
+		}
+		cands = append(cands, hs...)
+		return true
+	})
+	for _, g := range cands {
+		c07GoFlow(c, m, g, valObj, keyObj)
+		if g.runsVal {
+			mine = append(mine, g)
+		}
+	}
+	return mine, handedTo
+}
+
+// c07KeyContext decides whether keyExpr, evaluated at node n of f, is the key a
+// select case received from a key channel: n lies in such a case and keyExpr is
+// its (never reassigned) variable, or keyExpr is a parameter of f and every
+// call site of f in the package passes such a key.  "ok", "violation", "undecided".
+func c07KeyContext(c *kit.Ctx, m *cmModel, f *kit.Func, n ast.Node, keyExpr ast.Expr, depth int) (string, string) {
+	info := f.Info()
+	if _, isID := ast.Unparen(keyExpr).(*ast.Ident); !isID {
+		return "violation", "`" + f.Str(keyExpr) + "` is not the key received from an exit channel"
+	}
+	ko := kit.ObjOf(info, keyExpr)
+	if cc := cmEnclosingClause(f, n); cc != nil {
+		for _, k := range m.keyClauses() {
+			if k.cc == cc {
+				switch {
+				case k.key != ko:
+					break
+				case cmAssignCount(f.Root(), k.key) != 1:
+					return "violation", "the received key `" + k.key.Name() + "` is reassigned"
+				default:
+					return "ok", "in `case " + f.Str(cc.Comm) + "`"
+				}
+			}
+		}
+	}
+	if f.Lit != nil && f.Outer != nil {
+		if call, ok := c.P.Parent(f.File, f.Lit).(*ast.CallExpr); ok && ast.Unparen(call.Fun) == ast.Expr(f.Lit) && c07ParamOf(f, ko) == nil {
+			if _, isGo := c.P.Parent(f.File, call).(*ast.GoStmt); !isGo {
+				return c07KeyContext(c, m, f.Outer, f.Lit, keyExpr, depth)
+			}
+		}
+		if c07ParamOf(f, ko) == nil {
+			return "violation", "`" + f.Str(keyExpr) + "` is not the key of an enclosing exit-channel case"
+		}
+		return "undecided", "the key is a parameter of a function literal"
+	}
+	p := c07ParamOf(f, ko)
+	if p == nil || f.Decl == nil {
+		return "violation", "not inside a select case that receives this key from an exit channel"
+	}
+	if cmAssignCount(f, ko) != 0 || depth >= 2 {
+		return "undecided", "the key parameter `" + ko.Name() + "` of " + f.Name + " cannot be followed to its callers"
+	}
+	idx := -1
+	for i, q := range f.Params() {
+		if q == p {
+			idx = i
+		}
+	}
+	nsites := 0
+	for _, cf := range c.P.Funcs(f.PkgRel()) {
+		if cf.Body == nil {
+			continue
+		}
+		cinfo := cf.Info()
+		bad, why := "", ""
+		cmOwn(cf.Body, func(x ast.Node) bool {
+			switch y := x.(type) {
+			case *ast.CallExpr:
+				if cf.CalleeFunc(y) == f && idx < len(y.Args) {
+					nsites++
+					if v, w := c07KeyContext(c, m, cf, y, y.Args[idx], depth+1); v != "ok" && bad == "" {
+						bad, why = v, "called at "+cf.At(y)+": "+w
+					}
+				}
+			case *ast.SelectorExpr:
+				// method value / function value reference that is not a call
+				if s := cinfo.Selections[y]; s != nil && s.Kind() == types.MethodVal && f.Obj != nil {
+					if fn, ok := s.Obj().(*types.Func); ok && fn.Origin() == f.Obj {
+						if call, isCall := c.P.Parent(cf.File, y).(*ast.CallExpr); !isCall || ast.Unparen(call.Fun) != ast.Expr(y) {
+							bad, why = "undecided", f.Name+" is used as a value at "+cf.At(y)
+						}
+					}
+				}
+			}
+			return true
+		})
+		if bad != "" {
+			return bad, why
+		}
+	}
+	if nsites == 0 {
+		return "undecided", f.Name + " has no static call site in the package"
+	}
+	return "ok", "every caller of " + f.Name + " passes the key received in an exit-channel case"
+}
+
 func c07R4(c *kit.Ctx, m *cmModel, r *kit.Rule) {
 	// exit goroutines of the whole package and the sends their flows accepted
 	accepted := map[*ast.SendStmt]string{}
@@ -829,7 +1114,8 @@ func c07R4(c *kit.Ctx, m *cmModel, r *kit.Rule) {
 		if keyObj == nil || valObj == nil {
 			continue
 		}
-		for _, g := range c07ExitGoroutines(m, sto.f) {
+		mine, _ := c07StoreGoroutines(c, m, sto, keyObj, valObj)
+		for _, g := range mine {
 			_, _, sends := c07GoFlow(c, m, g, valObj, keyObj)
 			for _, s := range sends {
 				accepted[s] = "exit goroutine " + g.gf.Name + " after the run returned"
@@ -854,23 +1140,14 @@ func c07R4(c *kit.Ctx, m *cmModel, r *kit.Rule) {
 				case cmIsBuiltin(info, x, "delete") && len(x.Args) == 2:
 					c.Analysed(f)
 					o := r.Ob(f, x, "delete from the client-state map", "only in the select case that received this key from an exit channel")
-					cc := cmEnclosingClause(f, x)
-					var kc *cmKeyClause
-					for _, k := range m.keyClauses() {
-						if k.cc == cc && cc != nil {
-							k := k
-							kc = &k
-						}
-					}
-					switch {
-					case kc == nil:
-						o.Violation("`%s` is not inside a select case that receives the key of an exited client: the entry disappears while its client may still be running, and the next scan starts a second one", f.Str(x))
-					case kit.ObjOf(info, x.Args[1]) != kc.key:
-						o.Violation("`%s` deletes another key than the one received in this case (`%s`)", f.Str(x), kc.key.Name())
-					case cmAssignCount(f.Root(), kc.key) != 1:
-						o.Violation("the received key `%s` is reassigned before the delete", kc.key.Name())
+					v, why := c07KeyContext(c, m, f, x, x.Args[1], 0)
+					switch v {
+					case "ok":
+						o.OK("%s", why)
+					case "violation":
+						o.Violation("`%s`: %s: the entry disappears while its client may still be running, and the next scan starts a second one", f.Str(x), why)
 					default:
-						o.OK("in `case %s`", f.Str(kc.cc.Comm))
+						o.Undecided("`%s`: %s", f.Str(x), why)
 					}
 				}
 			case *ast.AssignStmt:
@@ -891,15 +1168,15 @@ func c07R4(c *kit.Ctx, m *cmModel, r *kit.Rule) {
 					o.OK("%s", why)
 					return true
 				}
-				if cc := cmEnclosingClause(f, x); cc != nil {
-					for _, k := range m.keyClauses() {
-						if k.cc == cc && kit.ObjOf(info, x.Value) == k.key && cmAssignCount(f.Root(), k.key) == 1 {
-							o.OK("forwards the key received in `case %s`", f.Str(cc.Comm))
-							return true
-						}
-					}
+				v, why := c07KeyContext(c, m, f, x, x.Value, 0)
+				switch {
+				case v == "ok":
+					o.OK("forwards the key received %s", why)
+				case v == "undecided" || c07ParamOf(f, kit.ObjOf(info, x.Value)) != nil:
+					o.Undecided("`%s`: the sender's key is a parameter; %s", f.Str(x), why)
+				default:
+					o.Violation("`%s` makes the manager delete the entry of a client that has not signalled its exit", f.Str(x))
 				}
-				o.Violation("`%s` makes the manager delete the entry of a client that has not signalled its exit", f.Str(x))
 			}
 			return true
 		})
@@ -931,11 +1208,19 @@ func c07R5(c *kit.Ctx, m *cmModel, r *kit.Rule) {
 			r.Ob(f, sto.loop, "listing", "the start loop ranges over the result of a listing call of this function or of its callers").Undecided("%s", actUndec)
 			continue
 		}
-		// removal loop: range over the map whose body calls stop on the value
+		// removal loop: range over the map whose body calls stop on the value; in f or in a
+		// function of the package that f calls (the flow inlines it)
 		var rem *ast.RangeStmt
+		var remF *kit.Func
+		var remCall *ast.CallExpr // call in f that reaches remF (nil when remF == f)
 		var remKey, remVal types.Object
+		var st *kit.Std
 		isRemStop := func(call *ast.CallExpr, rs *ast.RangeStmt) bool {
-			rx, ok := m.isStopCall(f, call)
+			cur := f
+			if st != nil {
+				cur = st.Cur()
+			}
+			rx, ok := m.isStopCall(cur, call)
 			if !ok {
 				return false
 			}
@@ -946,42 +1231,84 @@ func c07R5(c *kit.Ctx, m *cmModel, r *kit.Rule) {
 			if rs.Value != nil {
 				v = kit.ObjOf(info, rs.Value)
 			}
-			if v != nil && kit.ObjOf(info, rx) == v {
-				if _, isID := ast.Unparen(rx).(*ast.Ident); isID {
+			rxe := rx
+			if st != nil {
+				rxe = st.Resolve(rx)
+			}
+			if v != nil && kit.ObjOf(info, rxe) == v {
+				if _, isID := ast.Unparen(rxe).(*ast.Ident); isID {
 					return true
 				}
 			}
-			if ix, ok := ast.Unparen(rx).(*ast.IndexExpr); ok && m.isMapExpr(info, ix.X) && k != nil && kit.ObjOf(info, ix.Index) == k {
+			if ix, ok := ast.Unparen(rxe).(*ast.IndexExpr); ok && m.isMapExpr(info, ix.X) && k != nil && kit.ObjOf(info, ix.Index) == k {
 				return true
 			}
 			return false
 		}
-		cmOwn(f.Body, func(n ast.Node) bool {
-			rs, ok := n.(*ast.RangeStmt)
-			if !ok || !m.isMapExpr(info, rs.X) {
-				return true
-			}
+		stopsInside := func(hf *kit.Func, rs *ast.RangeStmt) bool {
 			has := false
 			cmOwn(rs.Body, func(x ast.Node) bool {
-				if call, ok := x.(*ast.CallExpr); ok && isRemStop(call, rs) {
+				call, ok := x.(*ast.CallExpr)
+				if !ok {
+					return true
+				}
+				if _, isStop := m.isStopCall(hf, call); isStop && isRemStop(call, rs) {
 					has = true
+				}
+				// a wrapper of the package applied to the value (inlined by the flow)
+				if cf := hf.CalleeFunc(call); cf != nil && cf.Pkg == hf.Pkg && cf.Body != nil {
+					if sel, ok := ast.Unparen(call.Fun).(*ast.SelectorExpr); ok && rs.Value != nil && kit.ObjOf(info, sel.X) == kit.ObjOf(info, rs.Value) {
+						for _, c2 := range cf.AllCalls(false) {
+							if _, isStop := m.isStopCall(cf, c2); isStop {
+								has = true
+							}
+						}
+					}
 				}
 				return true
 			})
-			if has {
-				rem = rs
+			return has
+		}
+		findRem := func(hf *kit.Func, via *ast.CallExpr) {
+			cmOwn(hf.Body, func(n ast.Node) bool {
+				rs, ok := n.(*ast.RangeStmt)
+				if !ok || !m.isMapExpr(info, rs.X) || !stopsInside(hf, rs) {
+					return true
+				}
+				rem, remF, remCall = rs, hf, via
 				if rs.Key != nil {
 					remKey = kit.ObjOf(info, rs.Key)
 				}
 				if rs.Value != nil {
 					remVal = kit.ObjOf(info, rs.Value)
 				}
-			}
-			return true
-		})
+				return true
+			})
+		}
+		findRem(f, nil)
+		opaqueCall := ""
+		if rem == nil {
+			cmOwn(f.Body, func(n ast.Node) bool {
+				call, ok := n.(*ast.CallExpr)
+				if !ok || cmIsLibraryCall(info, call) {
+					return true
+				}
+				hf := f.CalleeFunc(call)
+				if hf == nil || hf.Body == nil || hf.Pkg != f.Pkg {
+					if hf == nil {
+						opaqueCall = f.Str(call.Fun)
+					}
+					return true
+				}
+				if rem == nil && hf != f {
+					findRem(hf, call)
+				}
+				return true
+			})
+		}
 		_ = remVal
 		// found set: local map indexed by the removal loop's key in its guard
-		var foundVar types.Object
+		var foundVar types.Object // in remF
 		if rem != nil && remKey != nil {
 			cmOwn(rem.Body, func(n ast.Node) bool {
 				if ix, ok := n.(*ast.IndexExpr); ok && kit.ObjOf(info, ix.Index) == remKey {
@@ -993,6 +1320,19 @@ func c07R5(c *kit.Ctx, m *cmModel, r *kit.Rule) {
 				}
 				return true
 			})
+		}
+		foundTop := foundVar // the same set in terms of f
+		if foundVar != nil && remCall != nil {
+			foundTop = nil
+			if p := c07ParamOf(remF, foundVar); p != nil {
+				for i, q := range remF.Params() {
+					if q == p && i < len(remCall.Args) {
+						if _, isID := ast.Unparen(remCall.Args[i]).(*ast.Ident); isID {
+							foundTop = kit.ObjOf(info, remCall.Args[i])
+						}
+					}
+				}
+			}
 		}
 		isFoundIx := func(e ast.Expr, key types.Object) bool {
 			ix, ok := ast.Unparen(e).(*ast.IndexExpr)
@@ -1007,7 +1347,7 @@ func c07R5(c *kit.Ctx, m *cmModel, r *kit.Rule) {
 			cmOwn(rem.Body, func(n ast.Node) bool {
 				if as, ok := n.(*ast.AssignStmt); ok && len(as.Rhs) == 1 && len(as.Lhs) == 2 && isFoundIx(as.Rhs[0], remKey) {
 					commaOK[ast.Unparen(as.Rhs[0])] = true
-					if ov := kit.ObjOf(info, as.Lhs[1]); ov != nil && cmAssignCount(f, ov) == 1 {
+					if ov := kit.ObjOf(info, as.Lhs[1]); ov != nil && cmAssignCount(remF, ov) == 1 {
 						okVars[ov] = true
 						lookups[as] = true
 					}
@@ -1031,7 +1371,15 @@ func c07R5(c *kit.Ctx, m *cmModel, r *kit.Rule) {
 			return keyDef != nil && kit.SameExpr(info, e, keyDef)
 		}
 
-		st := &kit.Std{F: f}
+		st = &kit.Std{F: f}
+		st.ShouldInline = func(_ *kit.Func, call *ast.CallExpr) bool {
+			for _, a := range acts {
+				if a.caller == nil && call == a.chain.listCall {
+					return false // its error result is the event "listing succeeded"
+				}
+			}
+			return true
+		}
 		st.ErrTag = func(call *ast.CallExpr, s kit.S) string {
 			for _, a := range acts {
 				if a.caller == nil && call == a.chain.listCall {
@@ -1080,7 +1428,7 @@ func c07R5(c *kit.Ctx, m *cmModel, r *kit.Rule) {
 			if as, ok := n.(*ast.AssignStmt); ok && s.Has("fs") {
 				for i, l := range as.Lhs {
 					ix, ok := ast.Unparen(l).(*ast.IndexExpr)
-					if !ok || foundVar == nil || kit.ObjOf(info, ix.X) != foundVar || !keyEquiv(ix.Index) {
+					if !ok || foundTop == nil || st.ObjOf(ix.X) != foundTop || !keyEquiv(st.Resolve(ix.Index)) {
 						continue
 					}
 					if valueGuard && len(as.Lhs) == len(as.Rhs) {
@@ -1115,8 +1463,9 @@ func c07R5(c *kit.Ctx, m *cmModel, r *kit.Rule) {
 		}
 		// (1) nil exits after a successful listing, per activation
 		type verdict struct {
-			bad  string
-			exit kit.Exit
+			bad   string
+			undec string
+			exit  kit.Exit
 		}
 		anyPrunes := false
 		for _, act := range acts {
@@ -1154,6 +1503,8 @@ func c07R5(c *kit.Ctx, m *cmModel, r *kit.Rule) {
 					nRemoved++
 				} else if v.bad == "" {
 					switch {
+					case rem == nil && opaqueCall != "":
+						v.undec = "no loop over the client-state map that stops clients was found; " + f.Name + " calls `" + opaqueCall + "`, which the checker cannot follow"
 					case rem == nil:
 						v.bad = "there is no loop over the client-state map that stops the clients whose key was not listed"
 					case e.State.Has("rit"):
@@ -1170,7 +1521,7 @@ func c07R5(c *kit.Ctx, m *cmModel, r *kit.Rule) {
 			}
 			nBad := 0
 			for _, ret := range order {
-				if per[ret].bad != "" {
+				if per[ret].bad != "" || per[ret].undec != "" {
 					nBad++
 				}
 			}
@@ -1184,9 +1535,12 @@ func c07R5(c *kit.Ctx, m *cmModel, r *kit.Rule) {
 			for _, ret := range order {
 				v := per[ret]
 				o := r.Ob(f, ret, label+"exit "+retKey(f, ret), "after a successful listing, success is returned only once the removal loop has completed")
-				if v.bad != "" {
+				switch {
+				case v.undec != "":
+					o.Undecided("%s", v.undec)
+				case v.bad != "":
 					o.Violation("%s", v.bad).WithPath(res.PathTo(v.exit))
-				} else {
+				default:
 					o.OK("removal loop completed before this exit")
 				}
 			}
@@ -1202,7 +1556,35 @@ func c07R5(c *kit.Ctx, m *cmModel, r *kit.Rule) {
 		// (2) removal loop iterations
 		if rem != nil {
 			o := r.Ob(f, rem, "removal loop iteration", "each iteration stops the client iff its key is not in the set of listed keys")
+			remOpaque := ""
+			cmOwn(rem.Body, func(n ast.Node) bool {
+				var cond ast.Expr
+				switch x := n.(type) {
+				case *ast.IfStmt:
+					cond = x.Cond
+				case *ast.CaseClause:
+					for _, e := range x.List {
+						cmOwn(e, func(y ast.Node) bool {
+							if call, ok := y.(*ast.CallExpr); ok && !cmIsLibraryCall(info, call) {
+								remOpaque = f.Str(call.Fun)
+							}
+							return true
+						})
+					}
+				}
+				if cond != nil {
+					cmOwn(cond, func(y ast.Node) bool {
+						if call, ok := y.(*ast.CallExpr); ok && !cmIsLibraryCall(info, call) {
+							remOpaque = f.Str(call.Fun)
+						}
+						return true
+					})
+				}
+				return true
+			})
 			switch {
+			case remOpaque != "" && (foundVar == nil || stopBad != "" || iterBad != ""):
+				o.Undecided("the guard of the removal loop is decided by `%s`, which the checker does not evaluate", remOpaque)
 			case foundVar == nil:
 				o.Violation("the removal loop does not consult a set of listed keys: %s", c07Nz(stopBad, "every client is stopped on every scan"))
 			case stopBad != "":
@@ -1215,6 +1597,8 @@ func c07R5(c *kit.Ctx, m *cmModel, r *kit.Rule) {
 			// (3) found set complete
 			o3 := r.Ob(f, sto.loop, "set of listed keys", "every listed node's key is entered before the iteration ends")
 			switch {
+			case foundVar == nil && remOpaque != "":
+				o3.Undecided("the set of listed keys is consulted through `%s`", remOpaque)
 			case foundVar == nil:
 				o3.Violation("no set of listed keys")
 			case foundBad != "":
@@ -1223,6 +1607,7 @@ func c07R5(c *kit.Ctx, m *cmModel, r *kit.Rule) {
 				o3.Violation("the key of the insertion is never entered into `%s`", foundVar.Name())
 			default:
 				o3.OK("`%s[%s] = …` on every path of the iteration", foundVar.Name(), keyObj.Name())
+				_ = foundTop
 			}
 		}
 	}
@@ -1255,16 +1640,16 @@ func c07R6(c *kit.Ctx, m *cmModel, r *kit.Rule) {
 			}
 			c.Analysed(f)
 			o := r.Ob(f, call, "close of the client state's stop channel", "only inside sync.Once.Do of the same client state")
-			okOnce := false
-			if f.Lit != nil && f.Outer != nil {
+			switch {
+			case f.Lit != nil && f.Outer != nil && m.onceBodies[f]:
 				if doCall, isCall := c.P.Parent(f.File, f.Lit).(*ast.CallExpr); isCall && m.isOnceClose(f.Outer, doCall) {
-					// the close must be executed unconditionally at most once per Do: being inside the literal suffices
-					okOnce = true
+					o.OK("inside `%s`", trunc160(f.Outer.Str(doCall)))
+				} else {
+					o.Undecided("`%s` runs under the Once, but the close is not unconditional for the same client state", f.Str(call))
 				}
-			}
-			if okOnce {
-				o.OK("inside `%s`", trunc160(f.Outer.Str(c.P.Parent(f.File, f.Lit))))
-			} else {
+			case m.onceBodies[f]:
+				o.OK("%s runs only under the client state's sync.Once", f.Name)
+			default:
 				o.Violation("`%s` is not guarded by the state's sync.Once: stop is called from the subscription handler, the removal loop and the manager's stop case, the second call panics (close of closed channel)", f.Str(call))
 			}
 			return true
@@ -1273,7 +1658,7 @@ func c07R6(c *kit.Ctx, m *cmModel, r *kit.Rule) {
 	for _, sf := range m.stopM {
 		c.Analysed(sf)
 		o := r.Ob(sf, nil, "client state stop", "closes the stop channel (through the Once) on every path")
-		if alwaysCalls(sf, func(call *ast.CallExpr) bool { return m.isOnceClose(sf, call) }) {
+		if cmAlways(sf, func(cur *kit.Func, call *ast.CallExpr) bool { return m.isOnceClose(cur, call) }) {
 			o.OK("Once.Do(close(%s)) on every path", m.csStopCh.Name())
 		} else {
 			o.Violation("stop can return without closing the state's stop channel through its sync.Once: the client keeps running after the manager or a scan asked it to stop")
@@ -1291,29 +1676,38 @@ func c07R6(c *kit.Ctx, m *cmModel, r *kit.Rule) {
 		}
 		return "", false, false
 	}
-	stopOnValue := func(call *ast.CallExpr, rs *ast.RangeStmt) bool {
-		rx, ok := m.isStopCall(f, call)
-		if !ok || rs == nil {
-			return false
-		}
-		if rs.Value != nil {
-			if _, isID := ast.Unparen(rx).(*ast.Ident); isID && kit.ObjOf(info, rx) == kit.ObjOf(info, rs.Value) {
-				return true
-			}
-		}
-		if ix, ok := ast.Unparen(rx).(*ast.IndexExpr); ok && rs.Key != nil && m.isMapExpr(info, ix.X) && kit.ObjOf(info, ix.Index) == kit.ObjOf(info, rs.Key) {
-			return true
-		}
-		return false
-	}
 	{
 		o := r.Ob(f, m.stopClause, "manager stop case", "stops every client state in the map (or the map is empty)")
 		st := &kit.Std{F: f}
+		st.ShouldInline = func(*kit.Func, *ast.CallExpr) bool { return true }
 		st.Eval.Atom = mkAtom
 		missed := ""
+		ranges := map[string]*ast.RangeStmt{}
+		// the stop call may sit in a wrapper that is evaluated inline: its receiver is
+		// resolved back to the loop's value (or map[key]) of the innermost open range
+		stopOnValue := func(call *ast.CallExpr, rs *ast.RangeStmt) bool {
+			rx, ok := m.isStopCall(st.Cur(), call)
+			if !ok || rs == nil {
+				return false
+			}
+			rxe := ast.Unparen(st.Resolve(rx))
+			if rs.Value != nil {
+				if _, isID := rxe.(*ast.Ident); isID && kit.ObjOf(info, rxe) == kit.ObjOf(info, rs.Value) {
+					return true
+				}
+			}
+			if ix, ok := rxe.(*ast.IndexExpr); ok && rs.Key != nil && m.isMapExpr(info, ix.X) && kit.ObjOf(info, st.Resolve(ix.Index)) == kit.ObjOf(info, rs.Key) {
+				return true
+			}
+			return false
+		}
+		opaque := ""
 		st.OnCall = func(call *ast.CallExpr, n ast.Node, s kit.S) []kit.S {
-			if rs := cmEnclosingRange(f, call); rs != nil && m.isMapExpr(info, rs.X) && s.Has("it") && stopOnValue(call, rs) {
+			if rs := ranges[s.Get("rng")]; rs != nil && s.Has("it") && stopOnValue(call, rs) {
 				return []kit.S{s.Set("it", "1")}
+			}
+			if !cmIsLibraryCall(info, call) && st.Cur().CalleeFunc(call) == nil {
+				opaque = st.Cur().Str(call.Fun) // a function value: may stop the clients
 			}
 			return nil
 		}
@@ -1324,8 +1718,10 @@ func c07R6(c *kit.Ctx, m *cmModel, r *kit.Rule) {
 			if s.Get("it") == "0" && missed == "" {
 				missed = "an iteration over the client states can end without calling stop on the value"
 			}
+			id := fmt.Sprint(br.Range.Pos())
+			ranges[id] = br.Range
 			// the exit edge is taken only when every entry has been visited
-			return []kit.S{s.Set("it", "0")}, []kit.S{s.Del("it").Set("all", "1")}, true
+			return []kit.S{s.Set("it", "0").Set("rng", id)}, []kit.S{s.Del("it").Del("rng").Set("all", "1")}, true
 		}
 		res, leaves := cmClauseFlow(g, m.mainSel, m.stopClause, kit.NewS(), st.Client())
 		bad := ""
@@ -1353,6 +1749,8 @@ func c07R6(c *kit.Ctx, m *cmModel, r *kit.Rule) {
 			}
 		}
 		switch {
+		case (missed != "" || bad != "") && opaque != "":
+			o.Undecided("%s; the case calls the function value `%s`, which the checker cannot follow", c07Nz(missed, bad), opaque)
 		case missed != "":
 			o.Violation("%s", missed)
 		case bad != "":
@@ -1391,9 +1789,13 @@ func c07R6(c *kit.Ctx, m *cmModel, r *kit.Rule) {
 			if br.Kind != kit.BrSelect || !cmWithin(br.Comm, m.mainSel) || cmEnclosingSelect(f, br.Comm) != m.mainSel {
 				return nil, nil, false
 			}
-			return []kit.S{s.Set("case", classify(br.Comm)).Set("loop", "1").Del("a:empty")}, []kit.S{s}, true
+			return []kit.S{s.Set("case", classify(br.Comm)).Set("loop", "1").Del("a:empty").Del("opq")}, []kit.S{s}, true
 		}
 		st.OnCall = func(call *ast.CallExpr, n ast.Node, s kit.S) []kit.S {
+			if _, inCond := n.(ast.Expr); inCond && !cmIsLibraryCall(info, call) {
+				// a predicate of the module decides this branch: the exit condition may live there
+				return []kit.S{s.Del("a:empty").Set("opq", f.Str(call.Fun))}
+			}
 			if !s.Has("a:empty") {
 				return nil
 			}
@@ -1429,7 +1831,7 @@ func c07R6(c *kit.Ctx, m *cmModel, r *kit.Rule) {
 			c.Fatalf("R6: state overflow in %s", f.Name)
 		}
 		n := 0
-		bad := ""
+		bad, undecC := "", ""
 		var badExit kit.Exit
 		for _, e := range res.Exits {
 			if e.Return == nil || e.State.Get("loop") != "1" {
@@ -1437,6 +1839,10 @@ func c07R6(c *kit.Ctx, m *cmModel, r *kit.Rule) {
 			}
 			n++
 			if e.State.Get("case") == "timer" || e.State.Get("a:empty") == "T" {
+				continue
+			}
+			if q := e.State.Get("opq"); q != "" {
+				undecC = "the exit of the select loop is decided by `" + q + "`, which the checker does not evaluate"
 				continue
 			}
 			if bad == "" {
@@ -1447,6 +1853,8 @@ func c07R6(c *kit.Ctx, m *cmModel, r *kit.Rule) {
 		switch {
 		case bad != "":
 			o.Violation("%s", bad).WithPath(res.PathTo(badExit))
+		case undecC != "":
+			o.Undecided("%s", undecC)
 		case n == 0:
 			o.Undecided("the main loop has no exit")
 		default:
@@ -1474,6 +1882,7 @@ func c07R6(c *kit.Ctx, m *cmModel, r *kit.Rule) {
 			}
 			return false, false
 		}
+		var st *kit.Std
 		mark := func(s kit.S, e ast.Expr) kit.S {
 			stop, fin := recvOf(e)
 			if stop {
@@ -1484,13 +1893,14 @@ func c07R6(c *kit.Ctx, m *cmModel, r *kit.Rule) {
 			}
 			return s
 		}
-		st := &kit.Std{F: rf}
+		st = &kit.Std{F: rf}
+		st.ShouldInline = func(*kit.Func, *ast.CallExpr) bool { return true }
 		st.OnNode = func(n ast.Node, s kit.S) []kit.S {
 			// plain receive statements; select comms sit in the select header and are handled by OnBranch
-			if es, ok := n.(*ast.ExprStmt); ok && !cmIsSelectComm(rf, es) {
+			if es, ok := n.(*ast.ExprStmt); ok && !cmIsSelectComm(st.Cur(), es) {
 				s = mark(s, es.X)
 			}
-			if as, ok := n.(*ast.AssignStmt); ok && len(as.Rhs) == 1 && !cmIsSelectComm(rf, as) {
+			if as, ok := n.(*ast.AssignStmt); ok && len(as.Rhs) == 1 && !cmIsSelectComm(st.Cur(), as) {
 				s = mark(s, as.Rhs[0])
 			}
 			return []kit.S{s}
@@ -1508,6 +1918,11 @@ func c07R6(c *kit.Ctx, m *cmModel, r *kit.Rule) {
 		st.OnCall = func(call *ast.CallExpr, n ast.Node, s kit.S) []kit.S {
 			if x, ok := m.ifaceCall(rinfo, call, "Stop"); ok && cmField(rinfo, x) == m.csClient && s.Get("rx") == "1" {
 				return []kit.S{s.Set("fwd", "1")}
+			}
+			if x, ok := m.ifaceCall(rinfo, call, "Run"); ok && cmField(rinfo, x) == m.csClient {
+				if _, isGo := n.(*ast.GoStmt); !isGo {
+					return []kit.S{s.Set("fin", "1")} // the client's Run returned on this very path
+				}
 			}
 			return nil
 		}
@@ -1575,25 +1990,60 @@ func c07DoneChans(c *kit.Ctx, m *cmModel, rf *kit.Func) map[types.Object]bool {
 		}
 		return nil
 	}
+	type gfun struct {
+		f    *kit.Func
+		bind map[types.Object]types.Object
+	}
 	var lits []*kit.Func
+	var gfs []gfun
 	cmOwn(rf.Body, func(n ast.Node) bool {
 		if o := chanOf(n); o != nil {
 			other[o] = true
 		}
 		if gs, ok := n.(*ast.GoStmt); ok {
-			if gl := rf.CalleeFunc(gs.Call); gl != nil && gl.Lit != nil {
-				lits = append(lits, gl)
+			if gl := rf.CalleeFunc(gs.Call); gl != nil && gl.Body != nil {
+				gfs = append(gfs, gfun{gl, cmBindCall(info, gl, gs.Call)})
+				if gl.Lit != nil {
+					lits = append(lits, gl)
+				}
 			}
 		}
 		return true
 	})
-	for _, gl := range lits {
+	for _, g := range gfs {
+		gl := g.f
+		// a signal on a parameter of the goroutine's function is a signal on the channel passed for it
+		chanOfG := func(n ast.Node) types.Object {
+			var e ast.Expr
+			switch x := n.(type) {
+			case *ast.SendStmt:
+				e = x.Chan
+			case *ast.CallExpr:
+				if cmIsBuiltin(info, x, "close") && len(x.Args) == 1 {
+					e = x.Args[0]
+				}
+			}
+			if e == nil {
+				return nil
+			}
+			if _, isID := ast.Unparen(e).(*ast.Ident); !isID {
+				return nil
+			}
+			o := kit.ObjOf(info, e)
+			if b, ok := g.bind[o]; ok {
+				o = b
+			}
+			if o != nil && cmIsLocal(o) && cmIsChan(o.Type()) {
+				return o
+			}
+			return nil
+		}
 		st := &kit.Std{F: gl}
 		st.OnCall = func(call *ast.CallExpr, n ast.Node, s kit.S) []kit.S {
 			if x, ok := m.ifaceCall(info, call, "Run"); ok && cmField(info, x) == m.csClient {
 				return []kit.S{s.Set("ran", "1")}
 			}
-			if o := chanOf(call); o != nil {
+			if o := chanOfG(call); o != nil {
 				if s.Get("ran") == "1" {
 					after[o]++
 				} else {
@@ -1603,7 +2053,7 @@ func c07DoneChans(c *kit.Ctx, m *cmModel, rf *kit.Func) map[types.Object]bool {
 			return nil
 		}
 		st.OnNode = func(n ast.Node, s kit.S) []kit.S {
-			if o := chanOf(n); o != nil {
+			if o := chanOfG(n); o != nil {
 				if s.Get("ran") == "1" {
 					after[o]++
 				} else {
@@ -1614,13 +2064,10 @@ func c07DoneChans(c *kit.Ctx, m *cmModel, rf *kit.Func) map[types.Object]bool {
 		}
 		c.P.Graph(gl).Run(kit.NewS(), st.Client())
 		// signals in literals nested deeper are not understood
-		for _, call := range gl.AllCalls(true) {
-			_ = call
-		}
 		ast.Inspect(gl.Body, func(n ast.Node) bool {
 			if l, ok := n.(*ast.FuncLit); ok && l != gl.Lit {
 				ast.Inspect(l.Body, func(x ast.Node) bool {
-					if o := chanOf(x); o != nil {
+					if o := chanOfG(x); o != nil {
 						other[o] = true
 					}
 					return true
